@@ -25,11 +25,13 @@ EXTENDS Integers, Sequences, FiniteSets, TLC, Json
 CONSTANTS EmitJson,
           AllowTruncFault   \* include the injected write failure after the truncating open (known finding)
 
-Priors   == {"absent", "own", "ownnoop", "ownlong", "older", "garbage", "dir", "parentfile"}
-    \* ownnoop: own output written with -fmt noop; ownlong: own output written with -with-resets (longer, still compiles)
+Priors   == {"absent", "own", "ownnoop", "ownlong", "ownstub", "owncase", "older", "garbage", "empty", "dir", "parentfile"}
+    \* own output of an earlier run with other flags: ownnoop (-fmt noop), ownlong (-with-resets, longer), ownstub (-stub),
+    \* owncase (a mock name that differs in letter case only); empty: a zero-byte file
 Mods     == {"tidy", "stale"}   \* stale: go.mod lacks a requirement the go command could add if it were allowed to write
-OutModes == {"stdout", "file", "newdir"}        \* newdir: -out below directories that do not exist yet
-ArgKinds == {"ok", "ok2", "missing1", "missing2", "notiface2", "badalias", "none"}
+OutModes == {"stdout", "file", "newdir", "otherpkg"}
+    \* newdir: -out below directories that do not exist yet; otherpkg: -pkg mocks -out mocks/... in an existing directory
+ArgKinds == {"ok", "ok2", "okalias", "missing1", "missing2", "notiface2", "badalias", "none"}
 Faults   == {"none", "stdoutfull", "write"}
 
 (* scenarios that make sense together *)
@@ -41,9 +43,13 @@ Sane(s) ==
     /\ (s.out = "stdout") => (s.prior = "absent" /\ ~s.rm /\ s.fault \in {"none", "stdoutfull"})
     /\ (s.out # "stdout") => s.fault \in {"none", "write"}
     /\ (s.out = "newdir") => s.prior \in {"absent", "parentfile"}
-    /\ (s.out = "file") => s.prior # "parentfile"
+    /\ (s.out = "file") => s.prior \notin {"parentfile", "owncase"}
+    /\ (s.out = "otherpkg") => (s.prior \in {"absent", "own", "owncase", "ownstub", "garbage"} /\ s.args \in {"ok", "okalias", "missing2"})
+    /\ (s.prior = "owncase") => s.args = "okalias"
+    /\ (s.args = "okalias") => s.out = "otherpkg"
+    /\ (s.prior \in {"ownstub", "empty"}) => s.args \in {"ok", "ok2", "missing2"}
     /\ (s.fault = "write") => AllowTruncFault
-    /\ (s.fault # "none") => s.args \in {"ok", "ok2"}
+    /\ (s.fault # "none") => (s.args \in {"ok", "ok2"} /\ s.out # "otherpkg")
     /\ (s.mod = "stale") => (s.prior = "absent" /\ s.fault = "none" /\ s.args = "ok")
     /\ (s.prior \in {"ownnoop", "ownlong"}) => (s.out = "file" /\ s.args \in {"ok", "ok2"})
 
@@ -87,7 +93,7 @@ RemoveOut ==
     /\ UNCHANGED <<sc, dirsMade, srcOnStdout, wrote, touchedOther>>
 
 (* the package loads unless a stale or garbled .go file is still in it *)
-Loadable == /\ ~(InPlaceGo /\ sc.out = "file" /\ outSt = "prior" /\ sc.prior \in {"older", "garbage"})
+Loadable == /\ ~(InPlaceGo /\ sc.out = "file" /\ outSt = "prior" /\ sc.prior \in {"older", "garbage", "empty"})
             /\ sc.mod = "tidy"
 
 Load ==
@@ -150,7 +156,7 @@ AllOrNothing ==
     (Done /\ exit # 0) =>
         /\ stderr # ""
         /\ srcOnStdout = "none"
-        /\ \/ outSt = "prior" /\ sc.prior \in {"own", "ownnoop", "ownlong", "older", "garbage"}  \* byte-for-byte untouched
+        /\ \/ outSt = "prior" /\ sc.prior \in {"own", "ownnoop", "ownlong", "ownstub", "owncase", "older", "garbage", "empty"}  \* byte-for-byte untouched
            \/ outSt = "dir" /\ sc.prior = "dir"
            \/ outSt = "absent" /\ (sc.prior \in {"absent", "parentfile"} \/ sc.rm) \* nothing there before, or -rm: just gone
 (* C17: on success exactly the complete file, once; parents created *)
@@ -168,7 +174,7 @@ Terminates == <>Done
 (* C15 (second half): with -rm the outcome does not depend on the prior      *)
 (* content: success whenever the same scenario with prior = absent succeeds  *)
 RmMakesPriorIrrelevant ==
-    (Done /\ sc.rm /\ sc.out = "file" /\ sc.prior \in {"own", "ownnoop", "ownlong", "older", "garbage"} /\ sc.fault = "none" /\ sc.args \in {"ok", "ok2"}) => (exit = 0 /\ outSt = "new")
+    (Done /\ sc.rm /\ sc.out = "file" /\ sc.prior \in {"own", "ownnoop", "ownlong", "ownstub", "older", "garbage", "empty"} /\ sc.fault = "none" /\ sc.args \in {"ok", "ok2"}) => (exit = 0 /\ outSt = "new")
 
 Emit == (EmitJson /\ Done) =>
           PrintT("CLI " \o ToJson([sc |-> sc, exit |-> exit, outSt |-> outSt, srcOnStdout |-> srcOnStdout, stderr |-> stderr,
